@@ -51,6 +51,45 @@ def crc_table(I, fi, args, kw, bound_cls):
     return [ABits([cbit(x) for x in row], "ba") for row in cache[key]]
 
 
+def install_trellis_inverse_pair(I):
+    """Trellis34.encode / decode as an uninterpreted inverse pair (justified by C10 trellis/roundtrip);
+    used by the burst-level analysis so that it stays quick"""
+    table = {}
+    counter = [0]
+
+    def enc(I_, fi, args, kw, bound_cls):
+        v = args[0] if args else kw.get("decoded")
+        if isinstance(v, ABits) and v.kind == "bytes":
+            v = ABits(list(v.items), "ba")
+        if not isinstance(v, ABits) or len(v.items) < 144:
+            return NotImplemented
+        tag = tuple(I_.simp_bits(v.items[:144]))
+        ids = [I_.atoms.get(("trellis", tag, i)) for i in range(196)]
+        table[tuple(ids)] = list(v.items[:144])
+        return ABits([F(1 << a, 0) for a in ids], "ba")
+
+    def dec(I_, fi, args, kw, bound_cls):
+        v = args[0] if args else kw.get("encoded")
+        if not isinstance(v, ABits) or len(v.items) != 196:
+            return NotImplemented
+        ids = []
+        for b in v.items:
+            b = I_.simp(b)
+            if not (isinstance(b, F) and b.c == 0 and len(b.atoms()) == 1):
+                return NotImplemented
+            ids.append(b.atoms()[0])
+        orig = table.get(tuple(ids))
+        if orig is None:
+            return NotImplemented
+        r = ABits(list(orig), "ba")
+        if kw.get("as_bytes") or (len(args) > 1 and args[1]):
+            return ABits(list(orig), "bytes")
+        return r
+
+    I.summaries["etsi.fec.trellis:Trellis34.encode"] = enc
+    I.summaries["etsi.fec.trellis:Trellis34.decode"] = dec
+
+
 def np_to_int(I, fi, args, kw, bound_cls):
     """int(data.dot(2 ** arange(size)[::-1])): the 0/1 vector read as an unsigned integer, first element most significant"""
     from .bitabs import AInt
